@@ -310,13 +310,15 @@ impl<'tcx> TyGenContext<'_, 'tcx> {
         err_ty: Option<&hir::OutType>,
         header: &mut Header,
     ) -> String {
+        // Zero-sized structs take no space in the union. A struct that is disabled in this backend has no
+        // lowered fields either, but it is not zero-sized: keep it, so that `gen_ty_name` reports its use.
         let ok_ty = ok_ty.filter(|t| {
             let Type::Struct(s) = t else {
                 return true;
             };
             match s.resolve(self.tcx) {
-                ReturnableStructDef::Struct(s) => !s.fields.is_empty(),
-                ReturnableStructDef::OutStruct(s) => !s.fields.is_empty(),
+                ReturnableStructDef::Struct(s) => s.attrs.disable || !s.fields.is_empty(),
+                ReturnableStructDef::OutStruct(s) => s.attrs.disable || !s.fields.is_empty(),
                 _ => unreachable!("unknown AST/HIR variant"),
             }
         });
@@ -326,8 +328,8 @@ impl<'tcx> TyGenContext<'_, 'tcx> {
                 return true;
             };
             match s.resolve(self.tcx) {
-                ReturnableStructDef::Struct(s) => !s.fields.is_empty(),
-                ReturnableStructDef::OutStruct(s) => !s.fields.is_empty(),
+                ReturnableStructDef::Struct(s) => s.attrs.disable || !s.fields.is_empty(),
+                ReturnableStructDef::OutStruct(s) => s.attrs.disable || !s.fields.is_empty(),
                 _ => unreachable!("unknown AST/HIR variant"),
             }
         });
